@@ -760,10 +760,19 @@ def check_engine_rules(acc, rel_ir, prog, op):
 
     from vf import c36_engine_types as ET
 
-    for n in _all_nodes(rel_ir):
-        if isinstance(n, IR) or getattr(n, '_vf_engine_checked', False):
+    from hail.ir.base_ir import BaseIR
+
+    todo = []
+    stack = [rel_ir]
+    while stack:                      # only the part of the IR not seen by an earlier call (datasets share their prefixes)
+        n = stack.pop()
+        if getattr(n, '_vf_engine_checked', False):
             continue
         n._vf_engine_checked = True
+        if not isinstance(n, IR):
+            todo.append(n)
+        stack.extend(c for c in n.children if isinstance(c, BaseIR))
+    for n in todo:
         k = type(n).__name__
         try:
             r = ET.engine_type(n)
@@ -1592,6 +1601,9 @@ def check(tier, seed, procs):
             'not transliterated, are skipped and counted: TableRead, MatrixRead, TableToTableApply, MatrixToTableApply, '
             'MatrixToMatrixApply, TableMapPartitions, TableMultiWayZipJoin, TableGen, TableRepartition, MatrixRepartition, BlockMatrix*; '
             'value-IR children (newRow, expr, ...) contribute the type the Python IR infers for them',
+            'Table.join\'s private, undocumented `_join_key` parameter (a join on a proper prefix of the left key; never passed '
+            'by hail itself) is outside the catalogue: there the Python TableJoin rule moves ALL left key fields to the front while '
+            'TableIR.scala:2279-2300 moves only the first joinKey of them',
             '"value satisfies type" for literals is judged by a reference predicate written for the check (missing allowed everywhere); '
             'HailType.typecheck is run too but only reported, because it mishandles None in container positions',
         ],
